@@ -64,8 +64,24 @@ def keyword_confusables(draw):
     return word
 
 
+_NEST_OPEN = ["var(--x, ", "var(--x,", "calc(", "rgb(", "rgba(", "hsl(", "color-mix(in srgb, ", "(", "[", "{", "light-dark(", "env(x, ", "url("]
+
+
+@st.composite
+def deep_nesting(draw):
+    """A CSS-looking value nested far deeper than the interpreter's recursion limit (var(--x, var(--x, ... #fff ...))): a
+    parser that resolves fallbacks, groups or functions recursively must still report, not raise RecursionError."""
+    opener = draw(st.sampled_from(_NEST_OPEN))
+    depth = draw(st.sampled_from([40, 400, 1100, 3000, 12000]))
+    core = draw(st.sampled_from(["#fff", "red", "0", "", "1, 2, 3"]))
+    closer = {"(": ")", "[": "]", "{": "}"}[opener.strip()[-1] if opener.strip()[-1] in "([{" else ("(" if "(" in opener else "(")]
+    close_n = depth if draw(st.integers(0, 3)) else draw(st.sampled_from([0, depth - 1]))
+    return opener * depth + core + closer * close_n
+
+
 def strings():
-    return st.one_of(near_miss(), near_miss(), func_with_args(), hexlike(), keyword_confusables(), st.text(max_size=20), st.sampled_from(FRAGMENTS))
+    return st.one_of(near_miss(), near_miss(), func_with_args(), hexlike(), keyword_confusables(), st.text(max_size=20), st.sampled_from(FRAGMENTS),
+                     st.integers(0, 5).flatmap(lambda k: deep_nesting() if k == 0 else near_miss()))
 
 
 def scalars():
